@@ -361,9 +361,10 @@ class Obj(Shape):
 class Rec(Shape):
     """An immutable record-like opaque value whose attributes are read through
     uninterpreted field functions; natively a SimpleNamespace-like object."""
-    def __init__(self, tag='rec', attrs=None):
+    def __init__(self, tag='rec', attrs=None, truthy=True):
         self.tag = tag
         self.attrs = dict(attrs or {})
+        self.truthy = truthy     # named tuples and directives are never falsy
 
     def enum(self, budget=3):
         names = list(self.attrs)
